@@ -224,6 +224,10 @@ def interestingCut (s : Bytes) (cuts : List Nat) : Bool :=
 def oracleC09 (op : String) (args : List Bytes) (impl : String) : String × String :=
   match op with
   | "utf8.scan" => ("na", "std-model")
+  | "stream.big" =>
+    -- one write of a multi-megabyte well-formed stream and its 64 KiB pieces: every byte taken,
+    -- the same entries collected (compared by the harness, which reports what differed)
+    if impl == "ok" then ("ok", "nt") else ("fail:large-write-not-chunk-independent", "nt")
   | "stream.write" =>
     let s := args.flatten
     let cum := cumulative args
